@@ -55,6 +55,7 @@ def run(ctx):
         ctx.guard("cached-implies-ok" + tag, cached_implies_ok, ctx, crate, crs, tag)
         ctx.guard("render-terminates" + tag, render_terminates, ctx, crate, crs, tag)
         ctx.guard("panic-census" + tag, panic_census, ctx, crate, crs, tag, cfg)
+        ctx.guard("unreachable-arms" + tag, unreachable_arms, ctx, crate, crs, tag)
         # protocols behind `unreachable!` in decide() and the level assertion in analyze_unsolvable (shared with C01 / C02):
         # negative assertions are re-applied in full each round; a run is declared unsolvable only at its first level
         import c01, c02
@@ -64,6 +65,49 @@ def run(ctx):
         # id-indexed Mapping (watch lists, learnt_why, snapshot tables): growth covers the index about to be used
         import c19
         ctx.guard("grow-to-fit" + tag, c19.grow_to_fit, ctx, crate, crs, c19.env(), tag)
+
+
+def unreachable_arms(ctx, crate, crs, tag):
+    """conflict.rs groups a node's outgoing Requires edges in a closure whose `ConflictEdge::Conflict(_)` arm is `unreachable!()`.
+    That arm is dead only because the same function first skips every node that has *any* outgoing Conflict edge - a test on the
+    whole variant.  A guard that looks inside the variant (only some ConflictCause kinds) lets the remaining kinds through."""
+    R = "unreachable-arms" + tag
+    EDGE_ADT = "resolvo::conflict::ConflictEdge"
+    CAUSE_ADT = "resolvo::conflict::ConflictCause"
+    n = 0
+    fams = {}
+    for b in crate.bodies:
+        if b.key.startswith("resolvo::conflict::") and not b.crate.is_test:
+            fams.setdefault(strip_generics(b.root) if b.root else b.key, []).append(b)
+    for root, bodies in sorted(fams.items()):
+        panicking = []
+        for b in bodies:
+            for c in q.conds(b, crs):
+                if c.kind == "discr" and c.adt == EDGE_ADT and "Conflict" in c.edges:
+                    # the arm itself panics (no further test between the variant match and the panic), inside a closure
+                    sw = [x for x in range(b.n) if b.blocks[x]["term"]["k"] == "switch" and x != c.edges["Conflict"]]
+                    reach = b.reachable([c.edges["Conflict"]], avoid=[t_ for v_, t_ in c.edges.items() if v_ != "Conflict"] + sw)
+                    if b.kind == "Closure" and b.blocks[c.edges["Conflict"]]["term"]["k"] != "switch" and \
+                            any(t.get("f") and "panic" in t["f"]["path"] for i, t in b.calls() if i in reach and not b.blocks[i].get("cleanup")):
+                        panicking.append(b)
+        if not panicking:
+            continue
+        n += 1
+        guards = []
+        for b in bodies:
+            if b in panicking:
+                continue
+            for c in q.conds(b, crs):
+                if c.kind == "discr" and c.adt == EDGE_ADT and "Conflict" in c.edges:
+                    reach = b.reachable([c.edges["Conflict"]])
+                    inner = [c2 for c2 in q.conds(b, crs) if c2.kind == "discr" and c2.adt == CAUSE_ADT and c2.bb in reach]
+                    if not inner:
+                        guards.append(b.key)
+        ctx.ob(R, root, "conflict-edges-excluded-as-a-whole", bool(guards), panicking[0].loc(),
+               "the `Conflict(_) => unreachable!()` arm is protected by a test on the whole Conflict variant (%s)" % guards[0].split("::")[-1] if guards else
+               "no test in this function excludes every kind of Conflict edge before the closure whose Conflict arm is unreachable!(): the kinds let through panic there")
+    # no floor: the instances are hazards, not protections - a rewrite without `unreachable!()` arms leaves nothing to protect
+    ctx.count("unreachable_conflict_arms" + tag, n)
 
 
 # ------------------------------------------------------------------------------------------------
@@ -215,6 +259,7 @@ def parent_not_false(ctx, crate, crs, tag):
     else:
         for i, t in b.calls_to(ENC + "queue_solvable"):
             ok = False
+            wrong_var = False
             for c in q.conds(b, crs):
                 if c.kind == "bool" and c.src and c.src.get("k") == "call" and c.src["t"]["f"]["name"] in ("ne", "eq"):
                     xs = [q.origin_thru(b, a, transparent=set())[0] for a in c.src["t"]["args"][:2]]
@@ -227,10 +272,22 @@ def parent_not_false(ctx, crate, crs, tag):
                     if av and sf:
                         edge = c.target(True) if c.src["t"]["f"]["name"] == "ne" else c.target(False)
                         if q.edge_dominates(b, c.bb, edge, i):
-                            # the tested variable belongs to the queued candidate (same loop element)
-                            ok = True
+                            # the tested variable belongs to the queued candidate: both are computed from the same loop
+                            # element (a local defined by Iterator::next); testing the requiring parent instead says nothing
+                            nexts = {l for l in range(len(b.d["locals"])) for bb_, idx_, r_ in b.defs_of(l)
+                                     if idx_ == "term" and r_.get("f") and r_["f"]["name"] == "next"}
+                            qs = q.slice_locals(b, t["args"][1]) & nexts if len(t["args"]) > 1 else set()
+                            vs_ = set()
+                            for x in av:
+                                if len(x["t"]["args"]) > 1:
+                                    vs_ |= q.slice_locals(b, x["t"]["args"][1])
+                            if not qs or (qs & vs_):
+                                ok = True
+                            else:
+                                wrong_var = True
             ctx.ob(R, b.key, "eager-queue-skips-false-candidates", ok, where_call(b, i),
                    "a candidate is encoded eagerly only if it is not already assigned false" if ok else
+                   ("the `!= Some(false)` test in front of the eager queueing looks at a variable that is not the queued candidate's: " if wrong_var else "") +
                    "a candidate that is already assigned false can be encoded eagerly: Clause::requires asserts its parent is not false")
     # (3) run_sat encodes only true decisions / the solvable it just decided true
     rs = body_by_key(crate, SOLVER + "run_sat")
